@@ -200,7 +200,12 @@ def build_calls(d, dtype):
     Xres[0, 0] += 1e-17
     Xres[-1, -1] = Xres[-1, -1] if Xres[-1, -1] != 0 else -0.0
     Xres[0, -1] = Xres[0, -1] if Xres[0, -1] != 0 else 3e-17          # rounding residues as a decomposition loop leaves them behind
+    for k, (i, j) in enumerate(zip(*np.nonzero(Xres == 0))):
+        Xres[i, j] = (-0.0, 3e-17, 0.0)[k % 3]
     calls["bistochastic.positivity_graph[residues]"] = (bi.positivity_graph, [Xres])
+    # the same residues (an entry below every tolerance, a negative zero) in the matrix handed to the decomposition: whatever it does with
+    # them, the caller's matrix keeps its bits
+    calls["bistochastic.birkhoff_von_neumann[residues]"] = (bi.birkhoff_von_neumann, [np.array(Xres)])
     G = {int(k): [tuple(e) for e in v] for k, v in d["net"].items()}
     calls["flow.ford_fulkerson"] = (fl.ford_fulkerson, [G, d["s"], d["t"]])
     calls["flow.reachable_vertices"] = (fl.reachable_vertices, [G, d["s"]])
@@ -213,6 +218,9 @@ def build_calls(d, dtype):
     bg = {int(k): list(v) for k, v in d["bip"].items()}
     calls["flow.convert_bipartite_graph_to_flow_network"] = (fl.convert_bipartite_graph_to_flow_network, [bg, list(d["X_"]), list(d["Y_"])])
     calls["flow.maximum_cardinality_matching_bipartite"] = (fl.maximum_cardinality_matching_bipartite, [bg, list(d["X_"]), list(d["Y_"])])
+    # vertex lists in decreasing order (the lists belong to the graph argument as much as the dictionary does)
+    calls["flow.maximum_cardinality_matching_bipartite[unsorted]"] = (fl.maximum_cardinality_matching_bipartite, [bg, sorted(d["X_"], reverse=True), sorted(d["Y_"], reverse=True)])
+    calls["flow.convert_bipartite_graph_to_flow_network[unsorted]"] = (fl.convert_bipartite_graph_to_flow_network, [bg, sorted(d["X_"], reverse=True), sorted(d["Y_"], reverse=True)])
     calls["utils.check_graph"] = (ut.check_graph, [bg])
     calls["utils.check_bipartite_graph"] = (ut.check_bipartite_graph, [bg, list(d["X_"]), list(d["Y_"])])
     calls["utils.check_profile"] = (ut.check_profile, [Pv])
